@@ -372,6 +372,13 @@ def viewGet (s : Store K F) (fieldIndex : Int) (k : Int) :
 section
 variable [Add K] [NatCast K]
 
+/-- `if out is None: out = MemoryStorage(field_obj=transformed)` (base.py:529-532) -/
+def outOrNew (out : Option (Store K F)) (fi' : FieldInfo) : Store K F :=
+  match out with
+  | some o => o
+  | none => { times := [], frames := [], mode := .truncateOnce, dataShape := some fi'.shape,
+              dtypeSet := false, grid := some fi'.grid, template := some fi' }
+
 /-- loop of `StorageBase.apply` (base.py:514-541) for `out` of the same frame type.
 `todo` lists the time indices still to visit together with the frame that `out.append` will
 store for it (the copy of the transformed field's data); `finfo` is the effect of the user
@@ -386,11 +393,7 @@ def applyLoop (s : Store K F) (finfo : FieldInfo → FieldInfo) :
     | .ok _, none => (out, some .index)
     | .ok (fi, _), some t =>
       let fi' := finfo fi
-      -- `if out is None: out = MemoryStorage(field_obj=transformed)`
-      let out1 : Store K F := match out with
-        | some o => o
-        | none => { times := [], frames := [], mode := .truncateOnce, dataShape := some fi'.shape,
-                    dtypeSet := false, grid := some fi'.grid, template := some fi' }
+      let out1 : Store K F := outOrNew out fi'
       -- `if not writing: out.start_writing(transformed)`
       let r2 : Store K F × Option Err := if writing then (out1, none) else startWriting out1 fi'
       match r2 with
